@@ -58,7 +58,7 @@ FromHeader(h) ==
    icount |-> p.icount, obs |-> <<>>, kbd |-> p.kbd, disp |-> p.disp,
    devs |-> [i \in 1..Len(r.devs) |-> DevOf(r.devs[i])], ports |-> PairsFn(r.ports),
    ireg |-> PairsFn(r.ireg), flags |-> FlagsOf(r.flags), alloca |-> AllocaSeq(r.alloca),
-   srdefs |-> <<>>, base |-> h, bps |-> {}, pause |-> "Unsuccessful", devn |-> {}, drift |-> FALSE, mark |-> [reg |-> <<>>, psr |-> 0, pc |-> 0, kbd |-> <<>>, disp |-> <<>>, memw |-> <<>>, ssp |-> NoW]]
+   srdefs |-> <<>>, base |-> h, bps |-> {}, pause |-> "Unsuccessful", devn |-> {}, drift |-> FALSE, nrej |-> 0, mark |-> [reg |-> <<>>, psr |-> 0, pc |-> 0, kbd |-> <<>>, disp |-> <<>>, memw |-> <<>>, ssp |-> NoW]]
 
 ---------------------------------------------------------------------------
 \* comparison of the specification state with a logged projection
@@ -294,10 +294,14 @@ Resync(pre, post, p) ==
                               IF d.k = "timer" THEN [d EXCEPT !.time = p.timers[d.slot], !.en = B(p.timer_en[d.slot])]
                               ELSE IF d.k = "kbd" /\ j = 2 THEN [d EXCEPT !.ie = B(p.kbdie)] ELSE d],
                   !.memw = [a \in (DOMAIN pre.memw) \cup diffA |-> IF a \in diffA THEN dval(a) ELSE pre.memw[a]],
-                  !.dirty = <<>>, !.drift = TRUE]
+                  !.dirty = <<>>, !.drift = TRUE, !.nrej = pre.nrej + 1]
 
+\* (at most MaxRejected rejected events per run are followed up: a badly broken implementation must
+\* not turn every remaining event of every run into a reported difference)
+MaxRejected == 6
 Next == /\ l + 1 <= N
         /\ Rec[l + 1].ev # "New"
+        /\ st.nrej < MaxRejected
         /\ LET r == Rec[l + 1]
                x == Apply(st, r)
                hasproj == r.ev \in {"Step", "Host", "End", "Run"}
